@@ -63,6 +63,21 @@ func TestReplay(t *testing.T) {
 	if *fReplay == "" {
 		t.Skip("no replay file")
 	}
+	startHangMonitor(func(stacks string) {
+		// the scenario hangs again: that reproduces a ":hang" violation and nothing else
+		var rf ReplayFile
+		raw, _ := os.ReadFile(*fReplay)
+		_ = json.Unmarshal(raw, &rf)
+		tag := rf.Property + ":hang"
+		rr := ReplayResult{Tags: []string{tag}, Reproduced: rf.Tag == tag, Findings: []Finding{{Tag: tag, Detail: "the scenario did not finish; goroutines inside go-mail: " + stacks}}}
+		out, _ := json.MarshalIndent(rr, "", " ")
+		if *fOut != "" {
+			_ = os.WriteFile(*fOut, out, 0o644)
+		} else {
+			fmt.Println(string(out))
+		}
+		os.Exit(0)
+	})
 	rr := RunReplay(t, *fReplay)
 	// properties that depend on a nondeterminism source without a seam (Go's map iteration
 	// order, C11) repeat the replay; everything else is deterministic and runs once
@@ -90,6 +105,9 @@ func TestShrink(t *testing.T) {
 	if err := json.Unmarshal(raw, &rf); err != nil {
 		t.Fatal(err)
 	}
+	// a candidate that hangs ends the process without a result; the driver then keeps the
+	// unminimised scenario
+	startHangMonitor(func(string) {})
 	out := RunShrink(t, rf, 300)
 	raw, _ = json.MarshalIndent(out, "", " ")
 	if err := os.WriteFile(*fOut, raw, 0o644); err != nil {
